@@ -124,7 +124,8 @@ Fresh(p) == LET nn == 1..Len(Programs[p]) IN
 
 InEnded(s, n) == \E a \in Anc(n) : Kind(a) = "block" /\ a \in s.ended
 LockedInner(s) == IF s.locked = {} THEN 0 ELSE CHOOSE b \in s.locked : \A c \in s.locked : Depth(c) <= Depth(b)
-NextOuter(s, b) == LET rest == s.locked \ {b} IN IF rest = {} THEN 0 ELSE CHOOSE x \in rest : \A c \in rest : Depth(c) <= Depth(x)
+NextOuter(s, b) == LET rest == (s.locked \ {b}) \ s.ended IN      \* the enclosing block that is still active
+                   IF rest = {} THEN 0 ELSE CHOOSE x \in rest : \A c \in rest : Depth(c) <= Depth(x)
 RemoveSeq(q, set) == SelectSeq(q, LAMBDA x : x \notin set)
 
 (* reset of a subtree when an alarm re-arms: flags and visit positions *)
